@@ -151,6 +151,52 @@ func (c *ssaCollector) Write(p []byte) (int, error) {
 // SSAOptions
 type SSAOptions struct {"""))
 
+ben("b-ssa-stringwriter-fast-path-checked", "io.StringWriter fast path with the error checked",
+    ("ssa.go", """		// Write
+		if _, err = o.Write(b); err != nil {
+			err = fmt.Errorf("astisub: writing styles block failed: %w", err)
+			return
+		}""", """		// Write
+		if sw, ok := o.(io.StringWriter); ok {
+			_, err = sw.WriteString(string(b))
+		} else {
+			_, err = o.Write(b)
+		}
+		if err != nil {
+			err = fmt.Errorf("astisub: writing styles block failed: %w", err)
+			return
+		}"""))
+ben("b-stl-dates-formatted-in-utc", "GSI dates formatted through .UTC(): same bytes for UTC inputs, no dependence on the process zone",
+    ("stl.go", """b.creationDate.Format("060102")""", """b.creationDate.UTC().Format("060102")"""),
+    ("stl.go", """b.revisionDate.Format("060102")""", """b.revisionDate.UTC().Format("060102")"""))
+ben("b-write-openfile-trunc", "Subtitles.Write opens the destination with O_TRUNC explicitly",
+    ("subtitles.go", """	if f, err = os.Create(dst); err != nil {""", """	if f, err = os.OpenFile(dst, os.O_WRONLY|os.O_CREATE|os.O_TRUNC, 0666); err != nil {"""))
+ben("b-webvtt-pooled-buffer-correct", "sync.Pool buffer, reset on get, returned only after the write",
+    ("webvtt.go", """	// Add header
+	var c []byte
+	c = append(c, []byte("WEBVTT")...)""", """	// Add header
+	var cp = webvttBufferPool.Get().(*[]byte)
+	var c = (*cp)[:0]
+	defer func() {
+		*cp = c[:0]
+		webvttBufferPool.Put(cp)
+	}()
+	c = append(c, []byte("WEBVTT")...)"""),
+    ("webvtt.go", """// WriteToWebVTT writes subtitles in .vtt format""", """var webvttBufferPool = sync.Pool{New: func() interface{} { b := make([]byte, 0, 4096); return &b }}
+
+// WriteToWebVTT writes subtitles in .vtt format"""),
+    ("webvtt.go", '\t"strings"\n\t"time"', '\t"strings"\n\t"sync"\n\t"time"'))
+ben("b-scanner-initial-buffer-8k", "line scanner starts with an 8 KiB buffer (same 64 KiB limit)",
+    ("subtitles.go", """	var scanner = bufio.NewScanner(i)
+	scanner.Split(""", """	var scanner = bufio.NewScanner(i)
+	scanner.Buffer(make([]byte, 0, 8192), bufio.MaxScanTokenSize)
+	scanner.Split("""))
+ben("b-teletext-decoder-table-by-value-copy", "decoder copies the G0 table through an intermediate value (still a per-call copy)",
+    ("teletext.go", """			d.c = *v2.g0
+			nationalOptionSubset = v2.national""", """			var g0 = *v2.g0
+			d.c = g0
+			nationalOptionSubset = v2.national"""))
+
 def main():
     out_root = os.path.join(VERIF, "benign")
     base = tempfile.mkdtemp(prefix="mkben-", dir="/var/tmp")
